@@ -701,6 +701,12 @@ func headerID(fr *frame, b *ssa.BasicBlock) string {
 // loopVarEnv maps invariant variable names to the values they have on an edge into the header
 // (edgeFrom != nil) or at the header itself (phi constants).
 func (fr *frame) loopVarEnv(h *ssa.BasicBlock, edgeFrom *ssa.BasicBlock, names []string) map[string]Val {
+	return fr.loopVarEnvAt(h, edgeFrom, nil, names)
+}
+
+// loopVarEnvAt: as loopVarEnv; locals that are not loop-carried are looked up in the blocks dominating `at`
+// (inclusive) when at != nil, else in those strictly dominating the header.
+func (fr *frame) loopVarEnvAt(h *ssa.BasicBlock, edgeFrom *ssa.BasicBlock, at *ssa.BasicBlock, names []string) map[string]Val {
 	env := map[string]Val{}
 	for k, v := range fr.params {
 		env[k] = v
@@ -733,11 +739,44 @@ func (fr *frame) loopVarEnv(h *ssa.BasicBlock, edgeFrom *ssa.BasicBlock, names [
 		if _, ok := env[n]; ok {
 			continue
 		}
+		if at != nil {
+			if v := fr.findLocalIn(at, n, true); v != nil {
+				env[n] = fr.get(v)
+			}
+			continue
+		}
 		if v := fr.findLocal(h, n); v != nil {
 			env[n] = fr.get(v)
 		}
 	}
 	return env
+}
+
+func (fr *frame) findLocalIn(b *ssa.BasicBlock, name string, inclusive bool) ssa.Value {
+	var best ssa.Value
+	for _, blk := range fr.fn.Blocks {
+		if !blk.Dominates(b) || (blk == b && !inclusive) {
+			continue
+		}
+		for _, in := range blk.Instrs {
+			if d, ok := in.(*ssa.DebugRef); ok && !d.IsAddr {
+				if id := d.Object(); id != nil && id.Name() == name {
+					if _, isVal := fr.vals[d.X]; isVal || isConstLike(d.X) {
+						best = d.X
+					}
+				}
+			}
+		}
+	}
+	return best
+}
+
+func isConstLike(v ssa.Value) bool {
+	switch v.(type) {
+	case *ssa.Const, *ssa.Global, *ssa.Function:
+		return true
+	}
+	return false
 }
 
 // findLocal finds the SSA value of source variable `name` that is live at block b and not loop-carried.
@@ -765,7 +804,59 @@ func (fr *frame) invariantsOf(h *ssa.BasicBlock) []*Clause {
 	ord := fr.headers[h]
 	var out []*Clause
 	for _, c := range fr.con.Invariants {
-		if c.Loop == ord {
+		if c.Loop == ord && c.Kind == "invariant" {
+			out = append(out, c)
+		}
+	}
+	return out
+}
+
+// autoFrameInv: the function's frame condition as an implicit loop invariant, for the keys the loop modifies:
+// every object that existed at entry and is not named by the modifies clause still has its entry value.
+func (fr *frame) autoFrameInv(h *ssa.BasicBlock, heap Heap) Term {
+	x := fr.x
+	if fr.depth != 0 || fr.con == nil || fr.con.NoFrame {
+		return "true"
+	}
+	mods := x.loopMods[headerID(fr, h)]
+	if len(mods) == 0 {
+		return "true"
+	}
+	modKeys, modLocs, all := x.modifiesOf(fr.con, fr.paramVals(fr.con.SynParams, nil), fr.entry)
+	if all {
+		return "true"
+	}
+	var cs []Term
+	for _, k := range sortedKeys(mods) {
+		if strings.HasPrefix(k, "$") || modKeys[k] {
+			continue
+		}
+		if _, ok := x.keys[k]; !ok {
+			continue
+		}
+		a, b := x.hget(heap, k), x.hget(fr.entry, k)
+		if a == b {
+			continue
+		}
+		var except []Term
+		for _, l := range modLocs[k] {
+			except = append(except, not(eq("p!", l)))
+		}
+		cs = append(cs, fmt.Sprintf("(forall ((p! Int)) (! (=> %s (= (select %s p!) (select %s p!))) :pattern ((select %s p!))))",
+			and(append([]Term{app("<=", "p!", x.hget(fr.entry, keyAlloc)), app(">", "p!", "0")}, except...)...), a, b, a))
+	}
+	return and(cs...)
+}
+
+// stepsOf: two-state clauses relating the state at the loop header (prev) to the state at a back edge.
+func (fr *frame) stepsOf(h *ssa.BasicBlock) []*Clause {
+	if fr.con == nil {
+		return nil
+	}
+	ord := fr.headers[h]
+	var out []*Clause
+	for _, c := range fr.con.Invariants {
+		if c.Loop == ord && c.Kind == "step" {
 			out = append(out, c)
 		}
 	}
@@ -822,6 +913,13 @@ func (fr *frame) loopHeader(b *ssa.BasicBlock, reach Term, hin Heap, ps []*ssa.B
 		}
 		x.sc.assert(implies(reach, x.typeFacts(phi.Type(), fr.vals[phi], h)))
 	}
+	// implicit frame invariant: obligation on the entry edges, assumption at the header
+	for k, p := range ps {
+		if t := fr.autoFrameInv(b, fr.heapOut[p]); t != "true" {
+			x.addObl("frame", fmt.Sprintf("%s.loop%d_frame.entry", shortFn(fr.fn), fr.headers[b]), "frame condition holds on loop entry", loopPos(b), edges[k], t)
+		}
+	}
+	x.sc.assertC(implies(reach, fr.autoFrameInv(b, h)), "assume implicit frame invariant of the loop")
 	// assume invariants
 	for _, c := range invs {
 		ci := x.eng.clauses[c]
@@ -850,6 +948,17 @@ func (fr *frame) backEdgeObligations(from, h *ssa.BasicBlock, heap Heap) {
 		env := x.newSpecEnv(ci, fr.loopVarEnv(h, from, ci.params), heap, fr.entry)
 		goal := x.evalBool(env, clauseExpr(ci))
 		x.addObl("invariant", fmt.Sprintf("%s.%s.preserved", shortFn(fr.fn), c.Label), c.Text, loopPos(h), edge, goal)
+	}
+	if t := fr.autoFrameInv(h, heap); t != "true" {
+		x.addObl("frame", fmt.Sprintf("%s.loop%d_frame.preserved", shortFn(fr.fn), fr.headers[h]), "frame condition preserved by the loop body", loopPos(h), edge, t)
+	}
+	for _, c := range fr.stepsOf(h) {
+		ci := x.eng.clauses[c]
+		env := x.newSpecEnv(ci, fr.loopVarEnvAt(h, from, from, ci.params), heap, fr.entry)
+		env.prev = fr.heapIn[h]
+		env.prevVars = fr.loopVarEnv(h, nil, ci.params)
+		goal := x.evalBool(env, clauseExpr(ci))
+		x.addObl("step", fmt.Sprintf("%s.%s", shortFn(fr.fn), c.Label), c.Text, loopPos(h), edge, goal)
 	}
 	// record which keys the loop body modified
 	id := headerID(fr, h)
